@@ -103,6 +103,10 @@ func DiamConn() interface{}
 // a server handler into dst and reports whether there was one.
 func LastAnswer(dst interface{}) bool
 
+// AnswerTo copies the struct carried by the answer written for the given
+// Diameter request (a *diam.Message) into dst; false if none was written.
+func AnswerTo(req interface{}, dst interface{}) bool
+
 // gin router stub access.
 func GinRoutes() int
 func GinRouteMethod(i int) string
